@@ -1,2 +1,3 @@
 //! shared code of the conformance harness; one binary per property lives in src/bin/
 pub mod util;
+pub mod sketchers;
